@@ -104,6 +104,23 @@ func (sp *Scope) DeclareExternalValue(name string, value Element, moduleID int) 
 	return nil
 }
 
+// RedeclareConstValue - declare a constant at the current depth; a symbol of that name that
+// exists at the current depth already (e.g. an imported one) is replaced by it
+func (sp *Scope) RedeclareConstValue(name string, value Element) error {
+	for i := sp.localCount - 1; i >= 0; i-- {
+		if sp.locals[i].depth < sp.currentDepth {
+			break
+		}
+		if sp.locals[i].name == name {
+			sp.locals[i].isConst = true
+			sp.values[i] = value
+			delete(sp.externalRefs, i)
+			return nil
+		}
+	}
+	return sp.declareValue(name, value, true)
+}
+
 // getSymbolID - get the latest symbolID that matches the name
 // when not found, return -1
 func (sp *Scope) getSymbolID(name string) int {
